@@ -6,7 +6,7 @@ The reply for a query is looked up under the key "<fn>/<basename>" in the scenar
   {"journal": "<file>",            every invocation appends one JSON line when it starts and one when it replies
    "ctl": "<dir>",                 release files for held replies: <ctl>/<fn>.<basename>.go
    "default": {"kind": "unsat"},   reply for queries that are not scripted
-   "replies": {"<fn>/<basename>": {"kind": K, "hold": false, "delay_ms": 0, "core": "own"|"shared"|"none"}}}
+   "replies": {"<fn>/<basename>": {"kind": K, "hold": false, "delay_ms": 0, "core": "own"|"shared"|"empty"|"none"}}}
 
 Reply kinds K (first line of stdout is what halmos dispatches on):
   sat_valid     "sat" + a model of the halmos calldata variables, exit 0
@@ -114,6 +114,8 @@ def main(argv) -> int:
             ids = named_ids(query)
             if rep.get("core") == "shared":
                 ids = ids[: int(rep.get("shared_n", 1))]
+            if rep.get("core") == "empty":
+                ids = []
             out += "(" + " ".join(ids) + ")\n"
     elif kind == "unknown":
         out = "unknown\n"
